@@ -14,5 +14,6 @@ INVARIANT UniqueWhileBounded
 INVARIANT NoReissue
 INVARIANT CreationInForce
 INVARIANT RefUnique
+INVARIANT RefWordsAreCounter
 INVARIANT SerialAdvancesOnWrap
 CHECK_DEADLOCK FALSE
